@@ -53,7 +53,10 @@ class Server:
             head, self.buf = self.buf.split(b'\r\n\r\n', 1)
             line = head.split(b'\r\n')[0]
             if line.startswith(b'CONNECT'):
-                loop.call_soon(conn.send, b'HTTP/1.1 200 Connection established\r\n\r\n')
+                if b'badtunnel' in line:
+                    loop.call_soon(conn.send, b'HTTP/1.1 502 Bad Gateway\r\nContent-Length: 0\r\n\r\n')
+                else:
+                    loop.call_soon(conn.send, b'HTTP/1.1 200 Connection established\r\n\r\n')
                 continue
             parts = line.split(b' ')
             target = parts[1] if len(parts) > 1 else b''
@@ -167,9 +170,37 @@ def _yield_once():
     yield
 
 
+class InjectedOSError(OSError):
+    """What a full disk does to the WARC recorder's listener."""
+
+
+class InjectedError(Exception):
+    """A plugin bug."""
+
+
+SESSION_EVENTS = ('begin_session', 'end_session')
+HTTP_EVENTS = ('begin_request', 'request_data', 'end_request', 'begin_response', 'response_data', 'end_response')
+
+
+class FaultNet(fakenet.FakeNet):
+    """FakeNet whose n-th connection attempts (n in `refuse_attempts`) are refused."""
+
+    def __init__(self, refuse_attempts=()):
+        super().__init__()
+        self.refuse_attempts = set(refuse_attempts)
+        self.attempts = 0
+
+    async def open_connection(self, host=None, port=None, **kwargs):
+        n = self.attempts
+        self.attempts += 1
+        if n in self.refuse_attempts:
+            raise ConnectionRefusedError(111, 'Connection refused')
+        return await super().open_connection(host, port, **kwargs)
+
+
 def run_case(case):
     """Run one scenario on the real code.  Returns the World (failures filled in)."""
-    from wpull.protocol.http.client import Client
+    from wpull.protocol.http.client import Client, Session
     from wpull.protocol.http.web import WebClient
     from wpull.protocol.http.request import Request
     from wpull.protocol.http.stream import Stream
@@ -178,8 +209,9 @@ def run_case(case):
 
     world = World()
     loop = sched.new_det_loop(case['seed'])
-    net = fakenet.FakeNet()
+    net = FaultNet(case.get('refuse', ()))
     net.default = lambda: Server(world)
+    faulty = bool(case.get('refuse')) or any('badtunnel' in j[0] for jobs in case['workers'] for j in jobs)
     try:
         with net, ConnHooks(world):
             if case['stream'] == 'proxy':
@@ -195,25 +227,58 @@ def run_case(case):
             client = Client(connection_pool=pool, stream_factory=functools.partial(Stream, keep_alive=True))
             web_client = WebClient(client)
             workers = []
+            pending_fault = {}      # worker name -> (event, kind) for the next http session it creates
+
+            def on_new_session(session):
+                faults = pending_fault.pop(worker_name(), None)
+                for (event, kind) in (faults or ()):
+                    name = (Session.SessionEvent[event] if event in SESSION_EVENTS else Session.Event[event])
+
+                    def listener(*a, fired=[], kind=kind, **kw):
+                        if not fired:
+                            fired.append(1)
+                            raise (InjectedOSError(28, 'injected: No space left on device') if kind == 'os'
+                                   else InjectedError('injected: listener bug'))
+                    session.event_dispatcher.add_listener(name, listener)
+            client.event_dispatcher.add_listener(Client.ClientEvent.new_session, on_new_session)
+
+            async def fetch(i, url, linger, mode, fault):
+                if fault:
+                    pending_fault['w%s' % i] = tuple(fault)     # pairs (event, kind)
+                if mode in ('client', 'client-abandon'):
+                    with client.session() as session:
+                        await compat._ensure(session.start(Request(url)))
+                        if mode == 'client':
+                            await compat._ensure(session.download(io.BytesIO()))
+                        for _ in range(linger):
+                            await compat._ensure(_yield_once())
+                    return
+                ws = web_client.session(Request(url))
+                with ws:
+                    while not ws.done():
+                        await compat._ensure(ws.start())
+                        if mode == 'abandon':
+                            break           # the caller leaves the block without download()
+                        await compat._ensure(ws.download(io.BytesIO()))
+                    for _ in range(linger):
+                        await compat._ensure(_yield_once())
 
             async def worker(i, jobs):
-                for (url, linger) in jobs:
+                for (url, linger, mode, fault) in jobs:
                     world.fetches += 1
                     try:
-                        ws = web_client.session(Request(url))
-                        with ws:
-                            while not ws.done():
-                                await compat._ensure(ws.start())
-                                await compat._ensure(ws.download(io.BytesIO()))
-                            for _ in range(linger):
-                                await compat._ensure(_yield_once())
+                        await fetch(i, url, linger, mode, fault)
+                    except (InjectedOSError, InjectedError):
+                        pass                # the injected listener failure reaches the caller: fine
                     except (NetworkError, ProtocolError) as e:
                         world.fetch_errors.append((i, url, repr(e)))
-                        world.fail('error', 'fetch-failed', 'worker %d: %s failed with %r although the server behaved' % (i, url, e))
+                        if not faulty and not fault:
+                            world.fail('error', 'fetch-failed', 'worker %s: %s failed with %r although the server behaved' % (i, url, e))
                     except asyncio.CancelledError:
                         raise
                     except Exception as e:
-                        world.fail('error', 'foreign-exception', 'worker %d: %s raised %r' % (i, url, e))
+                        world.fail('error', 'foreign-exception', 'worker %s: %s raised %r' % (i, url, e))
+                    pending_fault.pop('w%s' % i, None)
 
             async def main():
                 for i, jobs in enumerate(case['workers']):
@@ -227,20 +292,48 @@ def run_case(case):
                 busy = {str(k): len(p.busy) for k, p in pool.host_pools.items()}
                 world.fail('deadlock', 'session-' + case['stream'],
                            'loop is dry, workers %s never finish; checked out: %s' % (unfinished, busy))
-            for t in world.rel_tasks:
-                if t.done() and (t.cancelled() or t.exception() is not None):
-                    world.fail('leak', 'release-task-failed', 'a release task ended with %r'
-                               % ('cancelled' if t.cancelled() else t.exception(),))
-                elif not t.done():
-                    world.fail('deadlock', 'release-task', 'a release task never finishes')
-            if not unfinished:
+
+            def end_state(when):
+                for t in world.rel_tasks:
+                    if t.done() and (t.cancelled() or t.exception() is not None):
+                        world.fail('leak', 'release-task-failed', 'a release task ended with %r'
+                                   % ('cancelled' if t.cancelled() else t.exception(),))
+                    elif not t.done():
+                        world.fail('deadlock', 'release-task', 'a release task never finishes')
                 for key, p in pool.host_pools.items():
                     if p.busy:
-                        world.fail('leak', 'busy-after-finish', '%d connection(s) still checked out for %s after every worker finished'
-                                   % (len(p.busy), key))
+                        world.fail('leak', 'busy-after-finish', '%d connection(s) still checked out for %s %s'
+                                   % (len(p.busy), key, when))
+                    elif not p.ready and not pool._host_pool_waiters.get(key):
+                        world.fail('leak', 'idle-host-kept', 'host pool %s kept with no connection and no waiter %s' % (key, when))
+                    if pool._host_pool_waiters.get(key):
+                        world.fail('leak', 'waiter-count', 'waiter count %s for %s %s' % (pool._host_pool_waiters.get(key), key, when))
                 if getattr(pool, '_connection_map', None):
-                    world.fail('leak', 'proxy-wrapper-map', '%d TLS wrapper(s) still mapped after every worker finished'
-                               % len(pool._connection_map))
+                    world.fail('leak', 'proxy-wrapper-map', '%d TLS wrapper(s) still mapped %s' % (len(pool._connection_map), when))
+
+            if not unfinished:
+                end_state('after every worker finished')
+                # "the next client gets a connection": one more plain fetch per origin used, no faults any more
+                net.refuse_attempts = set()
+                origins = sorted({j[0].split('/')[0] + '//' + j[0].split('/')[2] for jobs in case['workers'] for j in jobs
+                                  if 'badtunnel' not in j[0]})
+                probe_errors = []
+
+                async def probe():
+                    for o in origins:
+                        try:
+                            await fetch('P', o + '/probe', 0, 'web', None)
+                        except Exception as e:
+                            probe_errors.append((o, repr(e)))
+                pt = loop.create_task(probe(), name='wP')
+                workers.append(pt)
+                loop.run_until_quiescent(_wait(pt), max_steps=200000)
+                loop.drain(20000)
+                if not pt.done():
+                    busy = {str(k): len(p.busy) for k, p in pool.host_pools.items()}
+                    world.fail('deadlock', 'next-client', 'a client arriving after all others finished never gets a connection; checked out: %s' % busy)
+                elif probe_errors and not world.failures:
+                    world.fail('error', 'next-client', 'a client arriving after all others finished fails: %s' % probe_errors[:2])
             for w in workers:
                 if not w.done():
                     w.cancel()
@@ -250,7 +343,14 @@ def run_case(case):
     return world
 
 
-def gen_case(rng, stream):
+async def _wait(task):
+    await asyncio.wait([task])
+
+
+BAD_TUNNEL = 'badtunnel.test'
+
+
+def gen_case(rng, stream, faults=False):
     m = rng.choice([1, 1, 2])
     nworkers = rng.choice([1, 2, 2, 3]) if stream == 'proxy' else rng.choice([2, 2, 3])
     hosts = ['origin0.test'] if rng.random() < 0.6 else ['origin0.test', 'origin1.test']
@@ -263,23 +363,62 @@ def gen_case(rng, stream):
             else:
                 scheme = 'http'
             path = '/w%dj%d%s' % (w, j, 'close' if rng.random() < 0.15 else '')
-            jobs.append(('%s://%s%s' % (scheme, rng.choice(hosts), path), rng.choice([0, 0, 1, 2, 4, 8])))
+            host = rng.choice(hosts)
+            mode, fault = 'web', None
+            if faults:
+                mode = rng.choice(['web', 'web', 'client', 'client', 'abandon', 'client-abandon'])
+                if rng.random() < 0.5:
+                    events = SESSION_EVENTS + HTTP_EVENTS + ('end_session',) * 4
+                    fault = [(rng.choice(events), rng.choice(['os', 'bug']))]
+                    if rng.random() < 0.4:
+                        fault.append((rng.choice(events), rng.choice(['os', 'bug'])))
+                    fault = tuple(sorted(set(fault)))
+                if stream == 'proxy' and scheme == 'https' and rng.random() < 0.12:
+                    host = BAD_TUNNEL
+            jobs.append(('%s://%s%s' % (scheme, host, path), rng.choice([0, 0, 1, 2, 4, 8]), mode, fault))
         workers.append(jobs)
-    return {'stream': stream, 'seed': rng.randrange(1 << 30), 'M': m, 'workers': workers}
+    case = {'stream': stream, 'seed': rng.randrange(1 << 30), 'M': m, 'workers': workers}
+    if faults and rng.random() < 0.4:
+        case['refuse'] = sorted({rng.randrange(0, 8) for _ in range(rng.choice([1, 1, 2]))})
+    return case
+
+
+def norm_job(j):
+    j = list(j)
+    url, linger = str(j[0]), int(j[1])
+    mode = str(j[2]) if len(j) > 2 and j[2] else 'web'
+    fault = None
+    if len(j) > 3 and j[3]:
+        f = j[3]
+        if isinstance(f[0], str):          # one (event, kind) pair
+            f = [f]
+        fault = tuple((str(e), str(k)) for (e, k) in f)
+    return (url, linger, mode, fault)
 
 
 def norm_case(case):
-    return {'stream': case['stream'], 'seed': int(case['seed']), 'M': int(case['M']),
-            'workers': [[(str(u), int(l)) for (u, l) in jobs] for jobs in case['workers']]}
+    c = {'stream': case['stream'], 'seed': int(case['seed']), 'M': int(case['M']),
+         'workers': [[norm_job(j) for j in jobs] for jobs in case['workers']]}
+    if case.get('refuse'):
+        c['refuse'] = [int(x) for x in case['refuse']]
+    return c
 
 
 def check(ctx, case):
     case = norm_case(case)
     world = run_case(case)
     tags = ['front:' + case['stream'], 'front:%s:workers=%d' % (case['stream'], len(case['workers']))]
-    if any(u.startswith('https') for jobs in case['workers'] for (u, _) in jobs):
+    if any(j[0].startswith('https') for jobs in case['workers'] for j in jobs):
         tags.append('front:https-tunnel')
-    ctx.case(('front', case['stream'], case['seed'], case['M'], tuple(tuple(j) for j in case['workers'])),
+    for jobs in case['workers']:
+        for j in jobs:
+            for (e, k) in (j[3] or ()):
+                tags.append('front:listener-raises:' + e)
+            if j[2] != 'web':
+                tags.append('front:mode=' + j[2])
+    if case.get('refuse'):
+        tags.append('front:connect-refused')
+    ctx.case(('front', case['stream'], case['seed'], case['M'], tuple(tuple(j) for j in case['workers']), tuple(case.get('refuse', ()))),
              nontrivial=world.fetches > 1, tags=tags)
     for (kind, where, detail) in world.failures:
         ctx.fail(kind, where, case, detail)
